@@ -823,4 +823,4 @@ def rules(repo, tier):
                                                       'before it is complete - a later call with the same object and other contents must not be answered from it',
                                                       ['pypose.lietensor.convert'], floor=3),
             rule_optional(repo, 'C11.OPT', ['pypose.lietensor.convert'])] + mode_rules(repo, 'C11', ['pypose.lietensor.convert']) + [rule_callsig(repo, 'C11.SIG', ['pypose.lietensor.convert']), rule_docsig(repo, 'C11.DOC', ['pypose.lietensor.convert'])] + [
-            rule_axisdefault(repo, 'C11.AXDEF', ['pypose.lietensor.convert']), __import__('sa.axisdefault', fromlist=['x']).rule_frontaxis(repo, 'C11.BAX', ['pypose.lietensor.lietensor', 'pypose.lietensor.operation', 'pypose.lietensor.basics', 'pypose.lietensor.utils', 'pypose.lietensor.convert'])]
+            rule_axisdefault(repo, 'C11.AXDEF', ['pypose.lietensor.convert']), __import__('sa.axisdefault', fromlist=['x']).rule_frontaxis(repo, 'C11.BAX', ['pypose.lietensor.lietensor', 'pypose.lietensor.operation', 'pypose.lietensor.basics', 'pypose.lietensor.utils', 'pypose.lietensor.convert']), __import__('sa.axisdefault', fromlist=['x']).rule_viewarg(repo, 'C11.VIEW', ['pypose.lietensor.lietensor', 'pypose.lietensor.operation', 'pypose.lietensor.basics', 'pypose.lietensor.convert', 'pypose.basics.ops'])]
